@@ -108,3 +108,33 @@ def branch_on_result(f, call):
             continue
         return None
     return None
+
+
+def origins(f, local, depth=8):
+    """locals that `local` is a copy / move / (re)borrow of, following assignment chains backwards
+    (includes `local` itself)"""
+    seen = {local}
+    work = [(local, 0)]
+    defs = getattr(f, "_defs", None)
+    if defs is None:
+        defs = {}
+        for i in range(f.n):
+            for st in f.stmts(i):
+                if not proj(st["d"]):
+                    defs.setdefault(st["d"]["l"], []).append(st["r"])
+        f._defs = defs
+    while work:
+        l, d = work.pop()
+        if d >= depth:
+            continue
+        for rv in defs.get(l, []):
+            src = None
+            if rv.get("k") in ("ref", "rawptr"):
+                src = rv["p"]["l"]
+            elif rv.get("k") in ("use", "cast"):
+                p = op_place(rv["o"])
+                src = p["l"] if p else None
+            if src is not None and src not in seen:
+                seen.add(src)
+                work.append((src, d + 1))
+    return seen
